@@ -49,37 +49,118 @@ def log(msg):
     sys.stderr.flush()
 
 
-def sh(cmd, cwd=None, timeout=3600, env=None, input=None, check=False):
-    """Run a command, return (rc, stdout, stderr) as text."""
+MAX_OUT = int(os.environ.get("VERIF_MAX_OUT_MB", "400")) * 1024 * 1024
+
+
+def _run_capped(cmd, cwd, env, input, timeout, mem_mb=None, max_out=None):
+    """Run a child with (a) a wall-clock timeout, (b) captured stdout/stderr capped at max_out bytes each
+    (the child is killed when it exceeds the cap: a runaway generated program must not exhaust memory),
+    (c) optionally an address-space limit (not for sanitizer builds). Returns (rc, out_bytes, err_bytes)."""
+    import threading
+    import signal
+    max_out = max_out or MAX_OUT
+
+    def pre():
+        os.setsid()
+        if mem_mb:
+            import resource
+            resource.setrlimit(resource.RLIMIT_AS, (mem_mb * 1024 * 1024, mem_mb * 1024 * 1024))
+        try:
+            import resource
+            resource.setrlimit(resource.RLIMIT_CORE, (0, 0))
+        except Exception:
+            pass
+
+    p = subprocess.Popen(cmd, cwd=cwd, env=env, stdin=subprocess.PIPE if input is not None else subprocess.DEVNULL,
+                         stdout=subprocess.PIPE, stderr=subprocess.PIPE, shell=isinstance(cmd, str), preexec_fn=pre)
+    bufs = [bytearray(), bytearray()]
+    over = [False]
+
+    def killgroup():
+        try:
+            os.killpg(p.pid, signal.SIGKILL)
+        except Exception:
+            try:
+                p.kill()
+            except Exception:
+                pass
+
+    def reader(f, i):
+        while True:
+            b = f.read(65536)
+            if not b:
+                break
+            if len(bufs[i]) < max_out:
+                bufs[i] += b
+            else:
+                over[0] = True
+                killgroup()
+                break
+        try:
+            f.close()
+        except Exception:
+            pass
+
+    def writer():
+        try:
+            p.stdin.write(input)
+        except Exception:
+            pass
+        try:
+            p.stdin.close()
+        except Exception:
+            pass
+
+    ts = [threading.Thread(target=reader, args=(p.stdout, 0), daemon=True),
+          threading.Thread(target=reader, args=(p.stderr, 1), daemon=True)]
+    if input is not None:
+        ts.append(threading.Thread(target=writer, daemon=True))
+    for t in ts:
+        t.start()
+    timed_out = False
+    try:
+        p.wait(timeout=timeout)
+    except subprocess.TimeoutExpired:
+        timed_out = True
+        killgroup()
+        p.wait()
+    for t in ts:
+        t.join(5)
+    rc = p.returncode
+    err = bytes(bufs[1])
+    if timed_out:
+        rc = 124
+        err += b"\nTIMEOUT after %ds" % int(timeout)
+    if over[0]:
+        rc = 125
+        err += b"\nOUTPUT LIMIT exceeded (%d bytes): child killed" % max_out
+    return rc, bytes(bufs[0]), err
+
+
+def sh(cmd, cwd=None, timeout=3600, env=None, input=None, check=False, mem_mb=None, max_out=None):
+    """Run a command, return (rc, stdout, stderr) as text. Output is capped (see _run_capped);
+    rc 124 = timeout, 125 = output limit exceeded."""
     e = dict(os.environ)
     if env:
         e.update(env)
-    try:
-        p = subprocess.run(cmd, cwd=cwd, env=e, input=input, timeout=timeout,
-                           stdout=subprocess.PIPE, stderr=subprocess.PIPE,
-                           shell=isinstance(cmd, str),
-                           text=True, errors="replace")
-    except subprocess.TimeoutExpired as ex:
-        out = ex.stdout.decode("utf8", "replace") if isinstance(ex.stdout, bytes) else (ex.stdout or "")
-        err = ex.stderr.decode("utf8", "replace") if isinstance(ex.stderr, bytes) else (ex.stderr or "")
-        return 124, out, err + "\nTIMEOUT after %ss" % timeout
-    if check and p.returncode != 0:
-        raise RuntimeError("command failed (%d): %s\n%s\n%s" % (p.returncode, cmd, p.stdout[-4000:], p.stderr[-4000:]))
-    return p.returncode, p.stdout, p.stderr
+    if isinstance(input, str):
+        input = input.encode("utf8", "surrogateescape")
+    rc, out, err = _run_capped(cmd, cwd, e, input, timeout, mem_mb=mem_mb, max_out=max_out)
+    out = out.decode("utf8", "replace")
+    err = err.decode("utf8", "replace")
+    if check and rc != 0:
+        raise RuntimeError("command failed (%d): %s\n%s\n%s" % (rc, cmd, out[-4000:], err[-4000:]))
+    return rc, out, err
 
 
-def shb(cmd, cwd=None, timeout=3600, env=None, input=None):
+def shb(cmd, cwd=None, timeout=3600, env=None, input=None, mem_mb=None, max_out=None):
     """Binary variant: returns (rc, stdout_bytes, stderr_bytes)."""
     e = dict(os.environ)
     if env:
         e.update(env)
-    try:
-        p = subprocess.run(cmd, cwd=cwd, env=e, input=input, timeout=timeout,
-                           stdout=subprocess.PIPE, stderr=subprocess.PIPE,
-                           shell=isinstance(cmd, str))
-    except subprocess.TimeoutExpired as ex:
-        return 124, ex.stdout or b"", (ex.stderr or b"") + b"\nTIMEOUT"
-    return p.returncode, p.stdout, p.stderr
+    if isinstance(input, str):
+        input = input.encode("utf8", "surrogateescape")
+    return _run_capped(cmd, cwd, e, input, timeout, mem_mb=mem_mb, max_out=max_out)
 
 
 class Lock:
@@ -194,20 +275,20 @@ def lua_env():
     return {"LUA_PATH": os.path.join(REPO, "lualib", "?.lua") + ";;", "LUA_INIT": ""}
 
 
-def run_lua(script, args=(), input=None, timeout=600, interp=None, cwd=None):
+def run_lua(script, args=(), input=None, timeout=600, interp=None, cwd=None, mem_mb=None, max_out=None):
     """Run a Lua script under the rebuilt interpreter with /repo/lualib on the path."""
     interp = interp or ensure_interp()
-    return sh([interp, script] + list(args), input=input, timeout=timeout, env=lua_env(), cwd=cwd)
+    return sh([interp, script] + list(args), input=input, timeout=timeout, env=lua_env(), cwd=cwd, mem_mb=mem_mb, max_out=max_out)
 
 
-def nelua(args, input=None, timeout=600, interp=None, cwd=None, env=None):
+def nelua(args, input=None, timeout=600, interp=None, cwd=None, env=None, mem_mb=None, max_out=None):
     """Run the real compiler (REPO/nelua.lua) with the rebuilt interpreter."""
     interp = interp or ensure_interp()
     e = lua_env()
     if env:
         e.update(env)
     return sh([interp, "-lnelua", os.path.join(REPO, "nelua.lua")] + list(args), input=input,
-              timeout=timeout, env=e, cwd=cwd)
+              timeout=timeout, env=e, cwd=cwd, mem_mb=mem_mb, max_out=max_out)
 
 
 def nelua_build(src, out, extra=(), cache_dir=None, timeout=900, interp=None):
